@@ -673,6 +673,7 @@ def run(report, p):
         raise AnalysisError(f"verify -dh: the loops over generations / root entries (format collection and root comparison) were not found ({n_root_loops})")
 
     # ---- rules shared with other properties (same mechanism, same rule, reported under every property it can break)
+    include_rules(report, p, 'c03', ['R3.16'], 'verify -dh decides its exit code after the traversal: a TypeError from sorting collected records ends the command with exit 1 instead of 12')
     include_rules(report, p, 'c06', ['R6.3'], 'the loader recognises every manifest name the tool generates, for every folder name: a generation that is silently passed over makes the history look shorter or empty' + ' - verify -dh then exits 0 on any change')
     include_rules(report, p, 'c03', ['R3.11'], 'verify -dh reports every mismatch through the logger before it decides its exit code')
     include_rules(report, p, 'c07', ['R7.1', 'R7.2', 'R7.3', 'R7.4'], 'verify -dh recomputes directory hashes with the same context wiring')
